@@ -606,7 +606,8 @@ def build(tier, seed):
                            desc="tracker.run_batch_and_measure: rejected batch leaves counters/records unchanged; accepted batch returned as is, counted"))
     obs.append(vprop.enum_ob("C14.histories.enum", [C_RUN.key, C_BATCH_SEQ.key, C_DIST.key, C_GETWF.key, C_TR_BATCH.key], _histories(tier), _check_history,
                              "bounded: call histories (valid and invalid single / batch / distribution calls) on a dummy base runner, SymbolicSimulator and a tracker: "
-                             "rejections leave counters unchanged, counters never decrease and grow exactly, one result per circuit with >= n shots of register width"))
+                             "rejections leave counters unchanged, counters never decrease and grow exactly, one result per circuit with >= n shots of register width",
+                             timeout=900, time_budget=(None if tier == "quick" else 420), exhaustive=(tier == "quick")))
     obs.append(vprop.enum_ob("C14.segments.enum", [C_GETWF.key, C_SIM_RUN.key], lambda: [0], _check_segments,
                              "bounded: base-class simulators with four native sets x eight circuits whose first / last / only operations are not native x four entry points: circuits counter grows "
                              "by the native segments actually run, jobs counter by the segments processed; rejected requests (zero shots, wrong list length incl. length one, negative entry) change nothing"))
